@@ -163,6 +163,49 @@ def actOp (t : Int) (i : Inst α) : Act α → Op α
   | .extCnt name n => .extCnt t name n
   | .addProp p x => .instAddProp t i.uid p x
 
+/-- what `AddModifier` announces after it has updated the attached list -/
+inductive Announce (α : Type)
+  | none                                   -- unique: an instance of that name is already attached
+  | added (i : Inst α)                     -- new / replacing / merged instance: OnAdd + ModifierAdded
+  | extended (i : Inst α) (old : Int)      -- refresh / prolong of an attached instance
+  | unsupported
+
+/-- **The stacking rules**: the attached list of the target after `AddModifier` (before any
+listener runs) and what is announced. `inst` is the prepared new instance. -/
+def addPlan (stacking : Nat) (l : List (Inst α)) (inst : Inst α) : List (Inst α) × Announce α :=
+  let byName : Inst α → Bool := fun m => m.name == inst.name
+  let bySrc : Inst α → Bool := fun m => m.name == inst.name && m.source == inst.source
+  if stacking == 0 then
+    if l.any byName then (l, .none) else (l ++ [inst], .added inst)
+  else if stacking == 1 then
+    match l.find? bySrc with
+    | some old => (replaceFirst l bySrc fun _ => { inst with count := stackCount inst old.count },
+                   .added { inst with count := stackCount inst old.count })
+    | none => (l ++ [inst], .added inst)
+  else if stacking == 2 then
+    match l.find? byName with
+    | some old => (replaceFirst l byName fun _ => { inst with count := stackCount inst old.count },
+                   .added { inst with count := stackCount inst old.count })
+    | none => (l ++ [inst], .added inst)
+  else if stacking == 3 then (l ++ [inst], .added inst)
+  else if stacking == 4 then
+    match l.find? byName with
+    | some old => (replaceFirst l byName fun m => { m with dur := inst.dur }, .extended { old with dur := inst.dur } old.dur)
+    | none => (l ++ [inst], .added inst)
+  else if stacking == 5 then
+    match l.find? byName with
+    | some old => (replaceFirst l byName fun m => { m with dur := m.dur + inst.dur },
+                   .extended { old with dur := old.dur + inst.dur } old.dur)
+    | none => (l ++ [inst], .added inst)
+  else if stacking == 6 then
+    match l.find? byName with
+    | some old =>
+      (replaceFirst l byName fun _ => { old with count := stackCount inst old.count,
+                                                  dur := if inst.dur > old.dur then inst.dur else old.dur },
+       .added { old with count := stackCount inst old.count, dur := if inst.dur > old.dur then inst.dur else old.dur })
+    | none => (l ++ [inst], .added inst)
+  else (l, .unsupported)
+
 section exec
 variable (cat : Catalog α)
 
@@ -252,50 +295,15 @@ def execWith (rec : St α → Op α → Option (St α)) (s : St α) : Op α → 
     if !validTarget t then some (emitEv s (.err "invalid_target"))
     else if !validTarget d.source then some (emitEv s (.err "invalid_source"))
     else
-      let c := cfgOf cat d.name
       let inst := newInstance cat s d
       let s0 : St α := { s with nextUid := s.nextUid + 1 }
-      let l := s0.targets t
-      let byName : Inst α → Bool := fun m => m.name == inst.name
-      let bySrc : Inst α → Bool := fun m => m.name == inst.name && m.source == inst.source
+      let plan := addPlan (cfgOf cat d.name).stacking (s0.targets t) inst
       let fin (os : Option (St α)) : Option (St α) := os.map fun s' => emitEv s' (.ret true)
-      if c.stacking == 0 then
-        if l.any byName then fin (some s0)
-        else fin (emitAdd cat rec (setT s0 t (l ++ [inst])) t inst)
-      else if c.stacking == 1 then
-        match l.find? bySrc with
-        | some old =>
-          let ni := { inst with count := stackCount inst old.count }
-          fin (emitAdd cat rec (setT s0 t (replaceFirst l bySrc fun _ => ni)) t ni)
-        | none => fin (emitAdd cat rec (setT s0 t (l ++ [inst])) t inst)
-      else if c.stacking == 2 then
-        match l.find? byName with
-        | some old =>
-          let ni := { inst with count := stackCount inst old.count }
-          fin (emitAdd cat rec (setT s0 t (replaceFirst l byName fun _ => ni)) t ni)
-        | none => fin (emitAdd cat rec (setT s0 t (l ++ [inst])) t inst)
-      else if c.stacking == 3 then
-        fin (emitAdd cat rec (setT s0 t (l ++ [inst])) t inst)
-      else if c.stacking == 4 then
-        match l.find? byName with
-        | some old =>
-          fin (emitExtDur cat rec (setT s0 t (replaceFirst l byName fun m => { m with dur := inst.dur })) t
-                { old with dur := inst.dur } old.dur)
-        | none => fin (emitAdd cat rec (setT s0 t (l ++ [inst])) t inst)
-      else if c.stacking == 5 then
-        match l.find? byName with
-        | some old =>
-          fin (emitExtDur cat rec (setT s0 t (replaceFirst l byName fun m => { m with dur := m.dur + inst.dur })) t
-                { old with dur := old.dur + inst.dur } old.dur)
-        | none => fin (emitAdd cat rec (setT s0 t (l ++ [inst])) t inst)
-      else if c.stacking == 6 then
-        match l.find? byName with
-        | some old =>
-          let merged := { old with count := stackCount inst old.count,
-                                   dur := if inst.dur > old.dur then inst.dur else old.dur }
-          fin (emitAdd cat rec (setT s0 t (replaceFirst l byName fun _ => merged)) t merged)
-        | none => fin (emitAdd cat rec (setT s0 t (l ++ [inst])) t inst)
-      else some (emitEv s0 (.err "unsupported_stacking"))
+      match plan.2 with
+      | .none => fin (some s0)
+      | .added i => fin (emitAdd cat rec (setT s0 t plan.1) t i)
+      | .extended i old => fin (emitExtDur cat rec (setT s0 t plan.1) t i old)
+      | .unsupported => some (emitEv s0 (.err "unsupported_stacking"))
   | .remove t name =>
     let l := s.targets t
     emitRemove cat rec (setT s t (l.filter fun m => m.name != name)) t (l.filter fun m => m.name == name)
